@@ -102,6 +102,24 @@ theorem dhcp_removeOption_invM (d : Dhcp) (code : Nat) (hi : d.InvM) (hf : d.Fit
     simp only
     omega
 
+/-- the statement of `dhcp_removeOption_invM` without the side condition -/
+def dhcp_removeOption_invM_all : Prop := ∀ (d : Dhcp) (code : Nat), d.InvM → (d.removeOption code).InvM
+
+/-- … is false *in the model*: the model's option payloads are unbounded byte strings, and for an option of 8 GiB the
+    model's `(size_ + 2³² - n) % 2³²` (truncated subtraction on `Nat`) is not the `uint32_t` subtraction.  This is not
+    a libtins defect: a `PDUOption` stores its size in a `uint16_t` and refuses payloads above 65535 bytes
+    (`option_payload_too_large`), so `n ≤ 65537` there. -/
+theorem dhcp_removeOption_invM_all_fails : ¬ dhcp_removeOption_invM_all := by
+  intro h
+  obtain ⟨data, hd⟩ : ∃ data : Bytes, data.length = 8589934592 := ⟨List.replicate 8589934592 0, List.length_replicate⟩
+  have hw : Dhcp.optWire ⟨1, 0, data⟩ = 8589934594 := by simp [Dhcp.optWire, Dhcp.single, hd]
+  have hi : Dhcp.InvM ⟨List.replicate 236 0, [], [⟨1, 0, data⟩], 6⟩ :=
+    ⟨List.length_replicate, by show 6 = (4 + (Dhcp.optWire ⟨1, 0, data⟩ + 0)) % 4294967296; rw [hw]⟩
+  have hf : findOpt [(⟨1, 0, data⟩ : Opt)] 1 = some ⟨1, 0, data⟩ := by simp [findOpt]
+  have := (h _ 1 hi).size
+  simp only [Dhcp.removeOption, hf, eraseOpt, hw, beq_self_eq_true, if_true, Dhcp.wireSum] at this
+  omega
+
 /-- what a successful DHCP API call can be: one `add_option`, one `remove_option`, or a same-size header edit -/
 theorem dhcp_apply_cases (d d' : Dhcp) (op : List String) (hl : d.h.length = 236) (e : d.apply op = .ok d') :
     (∃ o, d' = d.addOption o) ∨ (∃ s c, op = ["remove_option", s] ∧ d' = d.removeOption c)
